@@ -326,9 +326,10 @@ contract(
 
 
 def _dim(s):
+    """size of the selection a slice with given bounds describes: empty (0) when it stops before it starts"""
     if is_int_obj(s):
         return 1
-    return s.stop if s.start is None else s.stop - s.start
+    return Max(0, s.stop if s.start is None else s.stop - s.start)
 
 
 def _shape_inputs(elem):
@@ -350,8 +351,8 @@ contract(
             lambda roi, n, result: And(
                 *[
                     Implies(
-                        (And(s >= -n, s < n) if is_int_obj(s) else And(0 <= (0 if s.start is None else s.start), (0 if s.start is None else s.start) <= s.stop, s.stop <= n)),
-                        r == bounds(s, n)[1] - bounds(s, n)[0],
+                        (And(s >= -n, s < n) if is_int_obj(s) else And(0 <= (0 if s.start is None else s.start), 0 <= s.stop, (0 if s.start is None else s.start) <= n, s.stop <= n)),
+                        r == Max(0, bounds(s, n)[1] - bounds(s, n)[0]),
                     )
                     for r, s in zip(result, _as_tuple(roi))
                 ]
